@@ -5,13 +5,24 @@
 
    Full statement aimed at (DESIGN.md):  lex_wf g -> accepted s -> inserting active-set whitespace
    or Comment text into a skipped gap leaves acceptance and the model unchanged up to positions.
-   Proved here: the whitespace part, in both directions (acceptance, rejection, abort are preserved and
-   the parse tree is the shifted one), for memoization off (textX's default), for the class
-   [ins_wf g cfg ins] and under the per-case decidable shifted-oracle hypothesis [shift_okb]
-   (checked by ./check C22 on every case).  NOT proved: insertion of Comment text (only validated by
-   the correspondence and the oracle), memoization on. *)
-From TxV Require Import Core.Base Model.PegSyntax Model.Peg Model.PegWsDefs
-     Proofs.PegWs Proofs.PegWsSim Proofs.PegWsWit.
+   Proved here:
+   * whitespace insertion, both directions (acceptance, rejection and abort are preserved and the parse
+     tree is the shifted one), memoization off (textX's default), for the class [ins_wf g cfg ins] and
+     under the per-case decidable shifted-oracle hypothesis [shift_okb] (C22_invariant_partial); with
+     memoization on for the intersection with C19's class ctx_constant (C22_invariant_memo_partial);
+   * Comment-text insertion (C22_comment_invariant_partial) for grammars whose Comment rule is a single
+     regex terminal and that never change the whitespace mode ([cmt_wf]), memoization off, for runs that
+     do not run out of fuel (the mutated run needs one more turn of the comment loop);
+   all hypotheses are decidable and evaluated by ./check C22 on every generated case.
+   * whole-run form of "only the active set is skipped" for grammars without Comment rule (any rule
+     modifiers, memoization off): an accepted input is tiled from 0 to its end by characters of the
+     grammar's whitespace sets and matches of the grammar's terminals (C22_accepted_is_tiled).
+   NOT proved: Comment insertion for Comment rules with several alternatives / sub-rules and with
+   memoization on; whitespace insertion with memoization on outside ctx_constant.  Outside cmt_wf's
+   mode-constancy the statement is false (C22_refuted_comment_modes). *)
+From TxV Require Import Core.Base Model.PegSyntax Model.Peg Proofs.PegProofs Proofs.PegMemo.
+From TxV Require Import Model.PegWsDefs
+     Proofs.PegWs Proofs.PegWsSim Proofs.PegCmtSim Proofs.PegWsMemo Proofs.PegGap Proofs.PegWsWit.
 
 (* skip absorption: from related positions (equal left of the insertion point, anywhere inside the
    inserted text at it, shifted right of it) skipping ends at corresponding positions *)
@@ -74,3 +85,80 @@ Theorem C22_refuted_adjacency : exists g cfg orc orc' fuel a ins b,
                r' <> shift_res (length a) (length ins) r.
 Proof. exists g_adj, c_default, adj_orc, adj_orc', 50, [49;46;53]%N, [32]%N, [120]%N. exact adj_refuted. Qed.
 Print Assumptions C22_refuted_adjacency.
+
+(* memoization on: composition with C19's memo_safe on the intersection class *)
+Theorem C22_invariant_memo_partial : forall g cfg orc orc' fuel a ins b,
+  ctx_constant g = true -> c_skipws cfg = true -> subset_ws ins (c_ws cfg) = true ->
+  shift_okb g (a ++ b) orc (a ++ ins ++ b) orc' (length a) (length ins) = true ->
+  PegMemo.not_aborted (run g cfg orc false fuel (a ++ b)) ->
+  outcome_shifted (length a) (length ins)
+                  (run g cfg orc true fuel (a ++ b)) (run g cfg orc' true fuel (a ++ ins ++ b)).
+Proof. exact ws_insert_invariant_memo. Qed.
+Print Assumptions C22_invariant_memo_partial.
+
+Example C22_invariant_memo_nonvacuous :
+  ctx_constant g_plain = true /\ c_skipws c_default = true /\ subset_ws [32;9]%N (c_ws c_default) = true /\
+  shift_okb g_plain ([97;32] ++ [98])%N no_orc ([97;32] ++ [32;9] ++ [98])%N no_orc 2 2 = true /\
+  PegWsDefs.accepts (run g_plain c_default no_orc true 50 ([97;32] ++ [32;9] ++ [98])%N) = true.
+Proof. exact plain_memo_nonvacuous. Qed.
+Print Assumptions C22_invariant_memo_nonvacuous.
+
+(* Comment text: inserted text = whitespace w1, a text c that the Comment regex matches exactly at its
+   place in the mutated input and that does not start with whitespace, whitespace w2 *)
+Theorem C22_comment_invariant_partial : forall g cfg orc orc' fuel a w1 c w2 b,
+  cmt_wf g cfg = true ->
+  cmt_ins_okb g cfg orc' a w1 c w2 = true ->
+  shift_okb g (a ++ b) orc (a ++ (w1 ++ c ++ w2) ++ b) orc' (length a) (length (w1 ++ c ++ w2)) = true ->
+  PegWsDefs.not_aborted (run g cfg orc false fuel (a ++ b)) ->
+  PegWsDefs.not_aborted (run g cfg orc' false fuel (a ++ (w1 ++ c ++ w2) ++ b)) ->
+  outcome_shifted (length a) (length (w1 ++ c ++ w2))
+                  (run g cfg orc false fuel (a ++ b)) (run g cfg orc' false fuel (a ++ (w1 ++ c ++ w2) ++ b)).
+Proof. exact comment_insert_invariant. Qed.
+Print Assumptions C22_comment_invariant_partial.
+
+Example C22_comment_invariant_nonvacuous :
+  cmt_wf g_cmt1 c_default = true /\
+  cmt_ins_okb g_cmt1 c_default cmt1_orc' [97]%N [32]%N [47;47;32;105]%N [10]%N = true /\
+  shift_okb g_cmt1 ([97] ++ [32;98])%N cmt1_orc ([97] ++ ([32] ++ [47;47;32;105] ++ [10]) ++ [32;98])%N cmt1_orc' 1 6 = true /\
+  PegWsDefs.accepts (run g_cmt1 c_default cmt1_orc false 50 ([97] ++ [32;98])%N) = true /\
+  PegWsDefs.accepts (run g_cmt1 c_default cmt1_orc' false 50 ([97] ++ ([32] ++ [47;47;32;105] ++ [10]) ++ [32;98])%N) = true.
+Proof. exact cmt1_nonvacuous. Qed.
+Print Assumptions C22_comment_invariant_nonvacuous.
+
+(* the mode-constancy condition of cmt_wf cannot be dropped (comment_positions ignores the mode) *)
+Theorem C22_refuted_comment_modes : exists g cfg orc orc' fuel a w1 c w2 b,
+  cmt_wf g cfg = false /\
+  cmt_ins_okb g cfg orc' a w1 c w2 = true /\
+  PegWsDefs.accepts (run g cfg orc false fuel (a ++ b)) = true /\
+  run g cfg orc' false fuel (a ++ (w1 ++ c ++ w2) ++ b) = SyntaxErr 12.
+Proof.
+  exists g_cmt2, c_default, cmt2_orc, cmt2_orc', 60, [97;32;120;32;121]%N, (@nil N), [47;42;32;105;32;42;47]%N, (@nil N),
+         [10;32;102;111;111]%N. exact cmt2_refuted.
+Qed.
+Print Assumptions C22_refuted_comment_modes.
+
+(* whole-run "only the active set is skipped" (no Comment rule): [covered g cfg input orc p q] = the text
+   from p to q is a concatenation of characters of all_ws g cfg (the configured set and the rule-level sets)
+   and of matches of terminal nodes of g (tmatch = Some len at that place) *)
+Theorem C22_accepted_is_tiled : forall g cfg orc fuel input r,
+  g_comments g = None -> top_eof g = true ->
+  run g cfg orc false fuel input = Parsed r ->
+  covered g cfg input orc 0 (length input).
+Proof. exact accepted_is_covered. Qed.
+Print Assumptions C22_accepted_is_tiled.
+
+(* every successful sub-parse moves only over such text (the invariant behind the theorem) *)
+Theorem C22_parse_moves_over_tiles : forall g cfg input orc, g_comments g = None ->
+  forall fuel nid psq x p0 r x1,
+    GI g cfg x -> covered g cfg input orc p0 (pos x) ->
+    parse g input orc false fuel nid psq x = Ok r x1 ->
+    GI g cfg x1 /\ covered g cfg input orc p0 (pos x1).
+Proof. exact parse_moves_over_tiles. Qed.
+Print Assumptions C22_parse_moves_over_tiles.
+
+Example C22_tiled_nonvacuous :
+  g_comments g_plain = None /\ top_eof g_plain = true /\
+  PegWsDefs.accepts (run g_plain c_default no_orc false 50 [97;32;32;98;10;98]%N) = true /\
+  all_ws g_plain c_default = c_ws c_default.
+Proof. exact plain_tiled_nonvacuous. Qed.
+Print Assumptions C22_tiled_nonvacuous.
